@@ -97,10 +97,11 @@ def build_unit(name, unit, pid=None):
         recipe = dict(it)
         # substitute constants into rewrite replacements
         rw = []
-        for pat, repl, why in it.get("rewrite", []):
+        for rwt in it.get("rewrite", []):
+            pat, repl, why = rwt[0], rwt[1], rwt[2]
             for k, v in consts.items():
                 repl = repl.replace("@" + k + "@", v)
-            rw.append((pat, repl, why))
+            rw.append((pat, repl, why) + tuple(rwt[3:]))
         recipe["rewrite"] = rw
         for k, v in consts.items():
             if recipe.get("spec"):
